@@ -27,11 +27,12 @@ class TxChecker:
 
     def check_ecdsa(self, sig, pub, scriptcode, sv):
         self.last_digest = None
-        P = secp.parse_pubkey(pub)
-        if P is None:
+        # CPubKey::IsValid(): header byte and length agree (the curve check happens at verification)
+        if not pub or not ((len(pub) == 33 and pub[0] in (2, 3)) or (len(pub) == 65 and pub[0] in (4, 6, 7))):
             return False
         if not sig:
             return False
+        P = secp.parse_pubkey(pub)
         ht = sig[-1]
         body = sig[:-1]
         if sv == WITNESS_V0:
@@ -39,6 +40,8 @@ class TxChecker:
         else:
             d = sighash.sighash_legacy(self.tx, self.idx, scriptcode, ht)
         self.last_digest = ('e', d)
+        if P is None:
+            return False
         rsig = secp.parse_der_lax(body)
         if rsig is None:
             return False
@@ -55,6 +58,7 @@ class TxChecker:
                 return (False, 'SCHNORR_SIG_HASHTYPE')
             sig = sig[:64]
         if self.spent is None:
+            self.missing_spent = True
             return (False, 'SCHNORR_SIG_HASHTYPE')
         if sv == TAPSCRIPT:
             d = sighash.sighash_taproot(self.tx, self.idx, ht, self.spent, 1, self.annex, self.leaf_hash, interp.codesep_pos)
